@@ -456,4 +456,17 @@ section .text
 		db 0x%3, 0x%2
 %endmacro
 
+%ifdef ISAL_CRYPTO_VERIF
+;; Verification hook (off by default): route the dispatchers' CPUID/XGETBV through
+;; functions supplied by a test harness so that any CPU/OS feature set can be presented.
+extern isal_verif_cpuid
+extern isal_verif_xgetbv
+%macro cpuid 0
+	call	isal_verif_cpuid
+%endmacro
+%macro xgetbv 0
+	call	isal_verif_xgetbv
+%endmacro
+%endif ; ISAL_CRYPTO_VERIF
+
 %endif ; ifndef _REG_SIZES_ASM_
